@@ -12,6 +12,163 @@ Definition oracle_ok (o : oracle) : Prop :=
 Definition cfg_wf (c : config) : Prop :=
   forall id h, In (id, h) (params c) -> id <= max_u64.
 
+(* ---------- auxiliary lemmas: byte strings, directory algebra, file names ---------- *)
+Lemma beq_spec a b : reflect (a = b) (beq a b).
+Proof.
+  destruct (beq a b) eqn:E; constructor.
+  - apply beq_eq; exact E.
+  - apply beq_neq; exact E.
+Qed.
+
+Lemma len_app a b : len (a ++ b) = len a + len b.
+Proof. unfold len. rewrite app_length. lia. Qed.
+
+Lemma dlookup_dset k k' v d :
+  dlookup k' (dset k v d) = if beq k' k then Some v else dlookup k' d.
+Proof.
+  induction d as [|[k0 v0] r IH]; cbn [dset dlookup].
+  - reflexivity.
+  - destruct (beq_spec k k0) as [->|N]; cbn [dlookup].
+    + destruct (beq k' k0); reflexivity.
+    + rewrite IH. destruct (beq_spec k' k0) as [->|N2].
+      * destruct (beq_spec k0 k) as [E|_]; [congruence|reflexivity].
+      * reflexivity.
+Qed.
+
+Lemma dlookup_dremove k k' d :
+  dlookup k' (dremove k d) = if beq k' k then None else dlookup k' d.
+Proof.
+  induction d as [|[k0 v0] r IH]; cbn [dremove dlookup].
+  - destruct (beq k' k); reflexivity.
+  - destruct (beq_spec k k0) as [->|N]; cbn [dlookup].
+    + rewrite IH. destruct (beq k' k0); reflexivity.
+    + rewrite IH. destruct (beq_spec k' k0) as [->|N2].
+      * destruct (beq_spec k0 k) as [E|_]; [congruence|reflexivity].
+      * reflexivity.
+Qed.
+
+Fixpoint dnodup (d : dirst) : Prop :=
+  match d with
+  | [] => True
+  | (k, _) :: r => dlookup k r = None /\ dnodup r
+  end.
+
+Lemma dnodup_dset k v d : dnodup d -> dnodup (dset k v d).
+Proof.
+  induction d as [|[k0 v0] r IH]; cbn [dset dnodup]; intros H.
+  - split; [reflexivity|exact I].
+  - destruct H as [H1 H2]. destruct (beq_spec k k0) as [->|N]; cbn [dnodup].
+    + split; assumption.
+    + split; [|apply IH; exact H2]. rewrite dlookup_dset.
+      destruct (beq_spec k0 k) as [E|_]; [congruence|exact H1].
+Qed.
+
+Lemma dnodup_dremove k d : dnodup d -> dnodup (dremove k d).
+Proof.
+  induction d as [|[k0 v0] r IH]; cbn [dremove dnodup]; intros H.
+  - exact I.
+  - destruct H as [H1 H2]. destruct (beq k k0); cbn [dnodup].
+    + apply IH; exact H2.
+    + split; [|apply IH; exact H2]. rewrite dlookup_dremove, H1.
+      destruct (beq k0 k); reflexivity.
+Qed.
+
+Lemma dnodup_In k n d : dnodup d -> In (k, n) d -> dlookup k d = Some n.
+Proof.
+  induction d as [|[k0 v0] r IH]; cbn [dnodup In dlookup]; intros H HI.
+  - contradiction.
+  - destruct H as [H1 H2]. destruct HI as [E|HI].
+    + injection E as -> ->. rewrite beq_refl. reflexivity.
+    + specialize (IH H2 HI). destruct (beq_spec k k0) as [->|N].
+      * congruence.
+      * exact IH.
+Qed.
+
+Lemma ext_admin_eq : ext_admin = [46; 97; 100; 109; 105; 110].
+Proof. reflexivity. Qed.
+Lemma ext_user_eq : ext_user = [46; 117; 115; 101; 114].
+Proof. reflexivity. Qed.
+Lemma tmp_name_eq : tmp_name = [46; 116; 109; 112].
+Proof. reflexivity. Qed.
+
+Lemma admin_ne_user u v : u ++ ext_admin <> v ++ ext_user.
+Proof.
+  intros H. apply (f_equal (@rev N)) in H. rewrite !rev_app_distr in H.
+  rewrite ext_admin_eq, ext_user_eq in H. cbn [rev app] in H. discriminate H.
+Qed.
+
+Lemma ext_of_inj u v b b' : u ++ ext_of b = v ++ ext_of b' -> u = v /\ b = b'.
+Proof.
+  intros H. destruct b, b'; cbn [ext_of] in H.
+  - split; [eapply app_inv_tail; exact H|reflexivity].
+  - exfalso. eapply admin_ne_user; exact H.
+  - exfalso. eapply admin_ne_user; symmetry; exact H.
+  - split; [eapply app_inv_tail; exact H|reflexivity].
+Qed.
+
+Lemma valid_not_tmp u b : valid_name u = true -> u ++ ext_of b <> tmp_name.
+Proof.
+  intros V H. destruct u as [|c r]; [discriminate V|].
+  unfold valid_name in V. apply andb_prop in V. destruct V as [V _].
+  rewrite tmp_name_eq in H. cbn [app] in H. injection H as Hc _. subst c.
+  vm_compute in V. discriminate V.
+Qed.
+
+Lemma has_prefix_app p s : has_prefix p (p ++ s) = true.
+Proof.
+  induction p as [|x p IH]; cbn [has_prefix app].
+  - reflexivity.
+  - rewrite N.eqb_refl, IH. reflexivity.
+Qed.
+
+Lemma has_suffix_app p u : has_suffix p (u ++ p) = true.
+Proof. unfold has_suffix. rewrite rev_app_distr. apply has_prefix_app. Qed.
+
+Lemma firstn_app_len (u e : bytes) : firstn (length (u ++ e) - length e) (u ++ e) = u.
+Proof.
+  rewrite app_length, Nat.add_sub.
+  induction u as [|x u IH]; cbn [length firstn app].
+  - destruct e; reflexivity.
+  - rewrite IH. reflexivity.
+Qed.
+
+Lemma check_user_file_admin u : check_user_file (u ++ ext_admin) = Some (u, true).
+Proof.
+  unfold check_user_file. rewrite has_suffix_app, firstn_app_len. reflexivity.
+Qed.
+
+Lemma check_user_file_user u : check_user_file (u ++ ext_user) = Some (u, false).
+Proof.
+  unfold check_user_file.
+  assert (F : has_suffix ext_admin (u ++ ext_user) = false).
+  { unfold has_suffix. rewrite rev_app_distr, ext_admin_eq, ext_user_eq. reflexivity. }
+  rewrite F, has_suffix_app, firstn_app_len. reflexivity.
+Qed.
+
+Lemma check_user_file_ext u b : check_user_file (u ++ ext_of b) = Some (u, b).
+Proof. destruct b; [apply check_user_file_admin|apply check_user_file_user]. Qed.
+
+Lemma fits_admin u : (name_max <? len (u ++ ext_admin)) = negb (name_fits u).
+Proof.
+  unfold name_fits, name_max. rewrite len_app. change (len ext_admin) with 6.
+  destruct (N.ltb_spec 255 (len u + 6)), (N.leb_spec (len u + 6) 255); cbn [negb]; try reflexivity; lia.
+Qed.
+
+Lemma fits_user u : name_fits u = true -> (name_max <? len (u ++ ext_user)) = false.
+Proof.
+  unfold name_fits, name_max. rewrite len_app. change (len ext_user) with 5.
+  intros H. apply N.leb_le in H. apply N.ltb_ge. lia.
+Qed.
+
+Lemma plookup_In id ps h : plookup id ps = Some h -> In (id, h) ps.
+Proof.
+  induction ps as [|[i h0] r IH]; cbn [plookup In]; intros H.
+  - discriminate H.
+  - destruct (N.eqb_spec i id) as [->|N].
+    + injection H as ->. left; reflexivity.
+    + right; apply IH; exact H.
+Qed.
+
 Section Refinement.
   Variable kdf : hasher -> bytes -> bytes -> option bytes.
   Variable sha256 : bytes -> bytes.
@@ -102,12 +259,713 @@ Section Refinement.
         end
     end.
 
+  (* ================================================================== *)
+  (* auxiliary development for the refinement proof                      *)
+
+  (* wrappers around Record_proofs lemmas whose statements do not mention
+     [kdf] (robust to whether they are generalised over it or not) *)
+  Lemma supp_written c h ts pid salt dig tail :
+    (- (max_i64 + 1) <= ts <= max_i64)%Z -> pid <= max_u64 ->
+    cfg_hasher c pid = Some h -> bytes_wf salt = true -> bytes_wf dig = true ->
+    salt <> [] -> dig <> [] ->
+    format_supported_full c (written h ts pid salt dig tail) = SuppInfo true (fmt_of h) ts pid.
+  Proof.
+    intros H1 H2 H3 H4 H5 H6 H7.
+    first [ apply (is_supported_written kdf); assumption
+          | apply is_supported_written; assumption ].
+  Qed.
+
+  Lemma afl_written h ts pid salt dig tail :
+    bytes_wf salt = true -> bytes_wf dig = true ->
+    after_first_line (written h ts pid salt dig tail) = tail.
+  Proof.
+    intros H1 H2.
+    first [ apply (after_first_line_written kdf); assumption
+          | apply after_first_line_written; assumption ].
+  Qed.
+
+  Definition res_of_sres (r : sres) : res := match r with SOk => ROk | SErr => RErr end.
+
+  (* the file-level representation of one credential *)
+  Definition cred_ok (c : config) (d : dirst) (u : bytes) (cr : acred) : Prop :=
+    valid_name u = true /\ name_fits u = true /\
+    exists h salt dig,
+      cfg_hasher c (a_pid cr) = Some h /\ a_pid cr <= max_u64 /\
+      (- (max_i64 + 1) <= a_ts cr <= max_i64)%Z /\
+      kdf h salt (a_pw cr) = Some dig /\ bytes_wf salt = true /\ salt <> [] /\
+      dlookup (u ++ ext_of (a_admin cr)) d
+        = Some (File (written h (a_ts cr) (a_pid cr) salt dig [])) /\
+      dlookup (u ++ ext_of (negb (a_admin cr))) d = None.
+
+  (* the refinement invariant *)
+  Definition Inv (c : config) (d : dirst) (a : amap) : Prop :=
+    cfg_wf c /\ dnodup d /\
+    (forall u cr, alookup u a = Some cr -> cred_ok c d u cr) /\
+    (forall k n, dlookup k d = Some n ->
+       (k = tmp_name /\ n = Dir []) \/
+       exists u cr, alookup u a = Some cr /\ k = u ++ ext_of (a_admin cr)).
+
+  Lemma Inv_empty c : cfg_wf c -> Inv c [] [].
+  Proof.
+    intros H. split; [exact H|]. split; [exact I|]. split.
+    - intros u cr A. discriminate A.
+    - intros k n L. discriminate L.
+  Qed.
+
+  Lemma inv_valid c d a u cr : Inv c d a -> alookup u a = Some cr -> valid_name u = true.
+  Proof. intros (_ & _ & Ha & _) A. destruct (Ha _ _ A) as (V & _). exact V. Qed.
+
+  Lemma inv_invalid_none c d a u : Inv c d a -> valid_name u = false -> alookup u a = None.
+  Proof.
+    intros HI V. destruct (alookup u a) as [cr|] eqn:A; [|reflexivity].
+    rewrite (inv_valid _ _ _ _ _ HI A) in V. discriminate V.
+  Qed.
+
+  Lemma inv_user_file c d a u b :
+    Inv c d a -> valid_name u = true ->
+    dlookup (u ++ ext_of b) d = None \/
+    exists cr content, alookup u a = Some cr /\ a_admin cr = b /\
+       dlookup (u ++ ext_of b) d = Some (File content).
+  Proof.
+    intros (Hwf & Hnd & Ha & Hd) V.
+    destruct (dlookup (u ++ ext_of b) d) as [n|] eqn:E; [right|left; reflexivity].
+    destruct (Hd _ _ E) as [[Ht _]|(u' & cr & A & Hk)].
+    - exfalso. eapply valid_not_tmp; eassumption.
+    - apply ext_of_inj in Hk. destruct Hk as [<- ->].
+      destruct (Ha _ _ A) as (_ & _ & h & salt & dig & _ & _ & _ & _ & _ & _ & L & _).
+      rewrite L in E. injection E as <-.
+      exists cr. eexists. split; [exact A|]. split; reflexivity.
+  Qed.
+
+  Lemma inv_absent c d a u b :
+    Inv c d a -> valid_name u = true -> alookup u a = None ->
+    dlookup (u ++ ext_of b) d = None.
+  Proof.
+    intros HI V A. destruct (inv_user_file c d a u b HI V) as [E|(cr & ct & A' & _)].
+    - exact E.
+    - congruence.
+  Qed.
+
+  Lemma inv_tmp c d a :
+    Inv c d a -> dlookup tmp_name d = None \/ dlookup tmp_name d = Some (Dir []).
+  Proof.
+    intros (Hwf & Hnd & Ha & Hd).
+    destruct (dlookup tmp_name d) as [n|] eqn:E; [right|left; reflexivity].
+    destruct (Hd _ _ E) as [[_ ->]|(u' & cr & A & Hk)]; [reflexivity|].
+    exfalso. destruct (Ha _ _ A) as (V & _).
+    eapply valid_not_tmp; [exact V|symmetry; exact Hk].
+  Qed.
+
+  Lemma fits_ext u b : name_fits u = true -> (name_max <? len (u ++ ext_of b)) = false.
+  Proof.
+    intros F. destruct b; cbn [ext_of].
+    - rewrite fits_admin, F. reflexivity.
+    - apply fits_user; exact F.
+  Qed.
+
+  (* ---- read operations ---- *)
+  Lemma exists_agree c d a u :
+    Inv c d a -> valid_name u = true ->
+    user_exists d u =
+    match alookup u a with
+    | Some cr => ExYes (a_admin cr)
+    | None => if name_fits u then ExNo else ExErr
+    end.
+  Proof.
+    intros HI V. unfold user_exists, stat_file.
+    destruct (alookup u a) as [cr|] eqn:A.
+    - destruct HI as (Hwf & Hnd & Ha & Hd).
+      destruct (Ha _ _ A) as (_ & F & h & salt & dig & _ & _ & _ & _ & _ & _ & L & Lo).
+      rewrite fits_admin, F, (fits_user _ F). cbn [negb].
+      destruct (a_admin cr); cbn [ext_of negb] in L, Lo.
+      + rewrite L. reflexivity.
+      + rewrite Lo, L. reflexivity.
+    - rewrite fits_admin. destruct (name_fits u) eqn:F; cbn [negb]; [|reflexivity].
+      rewrite (fits_user _ F).
+      rewrite (inv_absent c d a u true HI V A : dlookup (u ++ ext_admin) d = None).
+      rewrite (inv_absent c d a u false HI V A : dlookup (u ++ ext_user) d = None).
+      reflexivity.
+  Qed.
+
+  Lemma auth_agree c d a u p :
+    Inv c d a ->
+    authenticate kdf c d u p = obs_of_sauth (spec_auth sha256 kdf_fails c a u p).
+  Proof.
+    intros HI. unfold authenticate, spec_auth.
+    destruct (valid_name u) eqn:V; cbn [negb].
+    - rewrite (exists_agree c d a u HI V).
+      destruct (alookup u a) as [cr|] eqn:A.
+      + destruct HI as (Hwf & Hnd & Ha & Hd).
+        destruct (Ha _ _ A) as (_ & F & h & salt & dig & Hh & Hpid & Hts & K & Ws & Ns & L & Lo).
+        destruct (kdf_out _ _ _ _ K) as [Wd Nd].
+        unfold read_file. rewrite L.
+        rewrite (auth_content_written kdf c h (a_ts cr) (a_pid cr) salt dig [] p Hts Hpid Hh Ws Wd).
+        rewrite Hh.
+        assert (KF : kdf_fails h = false).
+        { destruct (kdf_fails h) eqn:KF; [|reflexivity].
+          apply (kdf_fail_iff h salt (a_pw cr)) in KF. congruence. }
+        rewrite KF. cbn [negb andb].
+        destruct (kdf h salt p) as [d'|] eqn:K'.
+        * destruct (beq_spec d' dig) as [->|ND].
+          -- rewrite (kdf_inj _ _ _ _ _ K K'). reflexivity.
+          -- destruct (keyeq sha256 h (a_pw cr) p) eqn:KE; [|reflexivity].
+             exfalso. apply ND. apply (kdf_resp h salt) in KE. congruence.
+        * apply kdf_fail_iff in K'. congruence.
+      + destruct (name_fits u); reflexivity.
+    - rewrite (inv_invalid_none c d a u HI V). reflexivity.
+  Qed.
+
+  Lemma list_users_gen c a :
+    (forall u cr, alookup u a = Some cr -> valid_name u = true) ->
+    forall dl acc,
+      (forall k n, In (k, n) dl ->
+         k = tmp_name \/
+         exists u cr f pid, alookup u a = Some cr /\ k = u ++ ext_of (a_admin cr) /\
+                            supp_of_node c n = SuppInfo true f (a_ts cr) pid) ->
+      exists l, list_users c dl acc = Some l /\
+        forall u, alookup u l =
+          match alookup u a with
+          | Some cr => match dlookup (u ++ ext_of (a_admin cr)) dl with
+                       | Some _ => Some {| ui_admin := a_admin cr; ui_ts := a_ts cr |}
+                       | None => alookup u acc
+                       end
+          | None => alookup u acc
+          end.
+  Proof.
+    intros Hv dl. induction dl as [|[k n] r IH]; intros acc H.
+    - exists acc. split; [reflexivity|]. intros u. destruct (alookup u a); reflexivity.
+    - cbn [list_users]. destruct (beq_spec k tmp_name) as [->|NT].
+      + destruct (IH acc) as (l & Hl & Hq).
+        { intros k n' HIn. apply H. right. exact HIn. }
+        exists l. split; [exact Hl|]. intros u. rewrite Hq.
+        destruct (alookup u a) as [cr|] eqn:A; [|reflexivity].
+        cbn [dlookup].
+        destruct (beq_spec (u ++ ext_of (a_admin cr)) tmp_name) as [E|_]; [|reflexivity].
+        exfalso. eapply valid_not_tmp; [eapply Hv; exact A|exact E].
+      + destruct (H k n (or_introl eq_refl)) as [E|(u0 & cr0 & f & pid & A0 & -> & S)];
+          [contradiction|].
+        rewrite check_user_file_ext. rewrite (Hv _ _ A0). cbn [negb]. rewrite S.
+        destruct (IH (aset u0 {| ui_admin := a_admin cr0; ui_ts := a_ts cr0 |} acc))
+          as (l & Hl & Hq).
+        { intros k n' HIn. apply H. right. exact HIn. }
+        exists l. split; [exact Hl|]. intros u. rewrite Hq.
+        destruct (alookup u a) as [cr|] eqn:A.
+        * cbn [dlookup].
+          destruct (beq_spec (u ++ ext_of (a_admin cr)) (u0 ++ ext_of (a_admin cr0))) as [E|NE].
+          -- apply ext_of_inj in E. destruct E as [-> _].
+             rewrite A in A0. injection A0 as <-.
+             destruct (dlookup (u0 ++ ext_of (a_admin cr)) r); [reflexivity|].
+             apply alookup_aset_eq.
+          -- assert (NU : u0 <> u).
+             { intros ->. rewrite A in A0. injection A0 as <-. apply NE. reflexivity. }
+             destruct (dlookup (u ++ ext_of (a_admin cr)) r); [reflexivity|].
+             apply alookup_aset_ne. exact NU.
+        * assert (NU : u0 <> u) by congruence.
+          apply alookup_aset_ne. exact NU.
+  Qed.
+
+  Lemma list_agree c d a :
+    Inv c d a ->
+    exists l, list_users c d [] = Some l /\
+      forall u ui, alookup u l = Some ui <->
+        exists cr, alookup u a = Some cr /\ ui = {| ui_admin := a_admin cr; ui_ts := a_ts cr |}.
+  Proof.
+    intros HI. pose proof HI as (Hwf & Hnd & Ha & Hd).
+    destruct (list_users_gen c a (fun u cr A => inv_valid c d a u cr HI A) d []) as (l & Hl & Hq).
+    { intros k n HIn. apply (dnodup_In _ _ _ Hnd) in HIn.
+      destruct (Hd _ _ HIn) as [[-> _]|(u & cr & A & ->)]; [left; reflexivity|right].
+      destruct (Ha _ _ A) as (_ & F & h & salt & dig & Hh & Hpid & Hts & K & Ws & Ns & L & Lo).
+      destruct (kdf_out _ _ _ _ K) as [Wd Nd].
+      rewrite L in HIn. injection HIn as <-.
+      exists u, cr, (fmt_of h), (a_pid cr). split; [exact A|]. split; [reflexivity|].
+      cbn [supp_of_node]. apply supp_written; assumption. }
+    exists l. split; [exact Hl|]. intros u ui. rewrite Hq.
+    destruct (alookup u a) as [cr|] eqn:A.
+    - destruct (Ha _ _ A) as (_ & F & h & salt & dig & Hh & Hpid & Hts & K & Ws & Ns & L & Lo).
+      rewrite L. split.
+      + intros E. injection E as <-. exists cr. split; reflexivity.
+      + intros (cr' & E & ->). injection E as <-. reflexivity.
+    - cbn [alookup]. split.
+      + intros E. discriminate E.
+      + intros (cr' & E & _). discriminate E.
+  Qed.
+
+  (* ---- the invariant depends on the map only through [alookup] ---- *)
+  Lemma Inv_ext_a c d a a' :
+    (forall u, alookup u a' = alookup u a) -> Inv c d a -> Inv c d a'.
+  Proof.
+    intros HE (Hwf & Hnd & Ha & Hd). split; [exact Hwf|]. split; [exact Hnd|]. split.
+    - intros u cr A. rewrite HE in A. apply Ha; exact A.
+    - intros k n L. destruct (Hd _ _ L) as [T|(u & cr & A & Hk)]; [left; exact T|right].
+      exists u, cr. rewrite HE. split; assumption.
+  Qed.
+
+  Lemma Inv_set_default c d a id :
+    Inv c d a -> Inv {| params := params c; default := id |} d a.
+  Proof.
+    intros (Hwf & Hnd & Ha & Hd). split; [exact Hwf|]. split; [exact Hnd|]. split; [|exact Hd].
+    intros u cr A. exact (Ha _ _ A).
+  Qed.
+
+  (* writing / moving the file of one user *)
+  Lemma Inv_aset c d a d' u cr h salt dig t :
+    Inv c d a -> dnodup d' ->
+    valid_name u = true -> name_fits u = true ->
+    cfg_hasher c (a_pid cr) = Some h -> a_pid cr <= max_u64 ->
+    (- (max_i64 + 1) <= a_ts cr <= max_i64)%Z ->
+    kdf h salt (a_pw cr) = Some dig -> bytes_wf salt = true -> salt <> [] ->
+    (t = dlookup tmp_name d \/ t = Some (Dir [])) ->
+    (forall k, dlookup k d' =
+       if beq k (u ++ ext_of (a_admin cr))
+       then Some (File (written h (a_ts cr) (a_pid cr) salt dig []))
+       else if beq k (u ++ ext_of (negb (a_admin cr))) then None
+       else if beq k tmp_name then t else dlookup k d) ->
+    Inv c d' (aset u cr a).
+  Proof.
+    intros HI Hnd' V F Hh Hpid Hts K Ws Ns Ht HL.
+    pose proof HI as (Hwf & Hnd & Ha & Hd).
+    assert (NE : u ++ ext_of (negb (a_admin cr)) <> u ++ ext_of (a_admin cr)).
+    { intros E. apply ext_of_inj in E. destruct E as [_ E]. destruct (a_admin cr); discriminate E. }
+    split; [exact Hwf|]. split; [exact Hnd'|]. split.
+    - intros u' cr' A. destruct (beq_spec u u') as [<-|NU].
+      + rewrite alookup_aset_eq in A. injection A as <-.
+        split; [exact V|]. split; [exact F|].
+        exists h, salt, dig. repeat (split; [assumption|]). split.
+        * rewrite HL, beq_refl. reflexivity.
+        * rewrite HL. destruct (beq_spec (u ++ ext_of (negb (a_admin cr))) (u ++ ext_of (a_admin cr)))
+            as [E|_]; [contradiction|].
+          rewrite beq_refl. reflexivity.
+      + rewrite (alookup_aset_ne _ _ _ _ NU) in A.
+        destruct (Ha _ _ A) as (V' & F' & h' & salt' & dig' & Hh' & Hpid' & Hts' & K' & Ws' & Ns' & L' & Lo').
+        split; [exact V'|]. split; [exact F'|].
+        exists h', salt', dig'. repeat (split; [assumption|]).
+        assert (Q : forall b, dlookup (u' ++ ext_of b) d' = dlookup (u' ++ ext_of b) d).
+        { intros b. rewrite HL.
+          destruct (beq_spec (u' ++ ext_of b) (u ++ ext_of (a_admin cr))) as [E|_].
+          { apply ext_of_inj in E. destruct E as [E _]. congruence. }
+          destruct (beq_spec (u' ++ ext_of b) (u ++ ext_of (negb (a_admin cr)))) as [E|_].
+          { apply ext_of_inj in E. destruct E as [E _]. congruence. }
+          destruct (beq_spec (u' ++ ext_of b) tmp_name) as [E|_].
+          { exfalso. eapply valid_not_tmp; eassumption. }
+          reflexivity. }
+        rewrite !Q. split; assumption.
+    - intros k n L. rewrite HL in L.
+      destruct (beq_spec k (u ++ ext_of (a_admin cr))) as [->|N1].
+      { right. exists u, cr. split; [apply alookup_aset_eq|reflexivity]. }
+      destruct (beq_spec k (u ++ ext_of (negb (a_admin cr)))) as [->|N2]; [discriminate L|].
+      assert (G : dlookup k d = Some n ->
+                  (k = tmp_name /\ n = Dir []) \/
+                  exists u0 cr0, alookup u0 (aset u cr a) = Some cr0 /\ k = u0 ++ ext_of (a_admin cr0)).
+      { intros L0. destruct (Hd _ _ L0) as [T|(u0 & cr0 & A0 & Hk)]; [left; exact T|right].
+        exists u0, cr0. split; [|exact Hk].
+        rewrite alookup_aset_ne; [exact A0|].
+        intros <-. subst k.
+        destruct (a_admin cr0), (a_admin cr); cbn [negb] in N1, N2; congruence. }
+      destruct (beq_spec k tmp_name) as [->|N3]; [|apply G; exact L].
+      destruct Ht as [->| ->].
+      + apply G; exact L.
+      + injection L as <-. left. split; reflexivity.
+  Qed.
+
+  Lemma Inv_aremove c d a d' u :
+    Inv c d a -> dnodup d' ->
+    (forall k, dlookup k d' =
+       if beq k (u ++ ext_admin) then None
+       else if beq k (u ++ ext_user) then None else dlookup k d) ->
+    Inv c d' (aremove u a).
+  Proof.
+    intros HI Hnd' HL. pose proof HI as (Hwf & Hnd & Ha & Hd).
+    split; [exact Hwf|]. split; [exact Hnd'|]. split.
+    - intros u' cr' A. destruct (beq_spec u u') as [<-|NU].
+      + rewrite alookup_aremove_eq in A. discriminate A.
+      + rewrite (alookup_aremove_ne _ _ _ NU) in A.
+        destruct (Ha _ _ A) as (V' & F' & h' & salt' & dig' & Hh' & Hpid' & Hts' & K' & Ws' & Ns' & L' & Lo').
+        split; [exact V'|]. split; [exact F'|].
+        exists h', salt', dig'. repeat (split; [assumption|]).
+        assert (Q : forall b, dlookup (u' ++ ext_of b) d' = dlookup (u' ++ ext_of b) d).
+        { intros b. rewrite HL.
+          destruct (beq_spec (u' ++ ext_of b) (u ++ ext_admin)) as [E|_].
+          { apply (ext_of_inj u' u b true) in E. destruct E as [E _]. congruence. }
+          destruct (beq_spec (u' ++ ext_of b) (u ++ ext_user)) as [E|_].
+          { apply (ext_of_inj u' u b false) in E. destruct E as [E _]. congruence. }
+          reflexivity. }
+        rewrite !Q. split; assumption.
+    - intros k n L. rewrite HL in L.
+      destruct (beq_spec k (u ++ ext_admin)) as [->|N1]; [discriminate L|].
+      destruct (beq_spec k (u ++ ext_user)) as [->|N2]; [discriminate L|].
+      destruct (Hd _ _ L) as [T|(u0 & cr0 & A0 & Hk)]; [left; exact T|right].
+      exists u0, cr0. split; [|exact Hk].
+      rewrite alookup_aremove_ne; [exact A0|].
+      intros <-. subst k. destruct (a_admin cr0); cbn [ext_of] in N1, N2; congruence.
+  Qed.
+
+  (* ---- writeHashStr ---- *)
+  Lemma write_hash_fail c d u pw adm mc orc :
+    can_write kdf_fails c = false -> write_hash kdf c d u pw adm mc orc = (d, RErr).
+  Proof.
+    unfold can_write, write_hash. intros H.
+    destruct (cfg_hasher c (default c)) as [h|]; [|reflexivity].
+    assert (K : kdf h (o_salt orc) pw = None).
+    { apply kdf_fail_iff. destruct (kdf_fails h); [reflexivity|discriminate H]. }
+    unfold hash_generate. rewrite K. reflexivity.
+  Qed.
+
+  Lemma write_hash_succ c d u pw adm mc orc h old :
+    cfg_hasher c (default c) = Some h -> kdf_fails h = false ->
+    (dlookup tmp_name d = None \/ dlookup tmp_name d = Some (Dir [])) ->
+    u ++ ext_of adm <> tmp_name ->
+    ((mc = true /\ dlookup (u ++ ext_of adm) d = None /\ old = []) \/
+     (mc = false /\ dlookup (u ++ ext_of adm) d = Some (File old))) ->
+    dnodup d ->
+    exists dig d',
+      kdf h (o_salt orc) pw = Some dig /\
+      write_hash kdf c d u pw adm mc orc = (d', ROk) /\
+      dnodup d' /\
+      forall k, dlookup k d' =
+        if beq k (u ++ ext_of adm)
+        then Some (File (written h (o_ts orc) (default c) (o_salt orc) dig (after_first_line old)))
+        else if beq k tmp_name then Some (Dir []) else dlookup k d.
+  Proof.
+    intros Hh KF Htmp NT Hcase Hnd.
+    destruct (kdf h (o_salt orc) pw) as [dig|] eqn:K.
+    2:{ apply kdf_fail_iff in K. congruence. }
+    exists dig. unfold write_hash. rewrite Hh. unfold hash_generate. rewrite K.
+    cbv zeta.
+    assert (TF : beq tmp_name (u ++ ext_of adm) = false).
+    { apply beq_neq. congruence. }
+    destruct Hcase as [(-> & L & ->)|(-> & L)]; rewrite L; cbv beta iota.
+    - rewrite dlookup_dset, TF.
+      destruct Htmp as [T|T]; rewrite T; cbv beta iota.
+      + eexists. split; [reflexivity|]. split; [reflexivity|]. split.
+        * apply dnodup_dset, dnodup_dset, dnodup_dset. exact Hnd.
+        * intros k. rewrite !dlookup_dset.
+          destruct (beq k (u ++ ext_of adm)); [reflexivity|].
+          destruct (beq k tmp_name); reflexivity.
+      + eexists. split; [reflexivity|]. split; [reflexivity|]. split.
+        * apply dnodup_dset, dnodup_dset. exact Hnd.
+        * intros k. rewrite !dlookup_dset.
+          destruct (beq k (u ++ ext_of adm)); [reflexivity|].
+          destruct (beq_spec k tmp_name) as [->|_]; [exact T|reflexivity].
+    - destruct Htmp as [T|T]; rewrite T; cbv beta iota.
+      + eexists. split; [reflexivity|]. split; [reflexivity|]. split.
+        * apply dnodup_dset, dnodup_dset. exact Hnd.
+        * intros k. rewrite !dlookup_dset.
+          destruct (beq k (u ++ ext_of adm)); [reflexivity|].
+          destruct (beq k tmp_name); reflexivity.
+      + eexists. split; [reflexivity|]. split; [reflexivity|]. split.
+        * apply dnodup_dset. exact Hnd.
+        * intros k. rewrite !dlookup_dset.
+          destruct (beq k (u ++ ext_of adm)); [reflexivity|].
+          destruct (beq_spec k tmp_name) as [->|_]; [exact T|reflexivity].
+  Qed.
+
+  Lemma cfg_default_bound c h : cfg_wf c -> cfg_hasher c (default c) = Some h -> default c <= max_u64.
+  Proof.
+    intros Hwf Hh. unfold cfg_hasher in Hh. apply plookup_In in Hh. eapply Hwf; exact Hh.
+  Qed.
+
+  (* after a successful write the user's credential is the new one *)
+  Lemma Inv_after_write c d a d' u pw adm orc h dig :
+    Inv c d a -> oracle_ok orc -> dnodup d' ->
+    valid_name u = true -> name_fits u = true ->
+    cfg_hasher c (default c) = Some h ->
+    kdf h (o_salt orc) pw = Some dig ->
+    dlookup (u ++ ext_of (negb adm)) d = None ->
+    (forall k, dlookup k d' =
+       if beq k (u ++ ext_of adm)
+       then Some (File (written h (o_ts orc) (default c) (o_salt orc) dig []))
+       else if beq k tmp_name then Some (Dir []) else dlookup k d) ->
+    Inv c d' (aset u {| a_pw := pw; a_admin := adm; a_ts := o_ts orc; a_pid := default c |} a).
+  Proof.
+    intros HI (Ots & Ows & Ons) Hnd' V F Hh K Lo HL.
+    pose proof HI as (Hwf & _).
+    eapply (Inv_aset c d a d' u _ h (o_salt orc) dig (Some (Dir [])) HI Hnd' V F);
+      cbn [a_pw a_admin a_ts a_pid]; try assumption.
+    - eapply cfg_default_bound; eassumption.
+    - right; reflexivity.
+    - intros k. rewrite HL.
+      destruct (beq k (u ++ ext_of adm)); [reflexivity|].
+      destruct (beq_spec k (u ++ ext_of (negb adm))) as [->|_]; [|reflexivity].
+      destruct (beq_spec (u ++ ext_of (negb adm)) tmp_name) as [E|_]; [|exact Lo].
+      exfalso. eapply valid_not_tmp; eassumption.
+  Qed.
+
+  (* ---- AddUser ---- *)
+  Lemma add_sim c d a u pw adm orc :
+    Inv c d a -> oracle_ok orc ->
+    exists d' a' sr,
+      add_user kdf c d u pw adm orc = (d', res_of_sres sr) /\
+      spec_add kdf_fails c a u pw adm (o_ts orc) = (a', sr) /\
+      Inv c d' a'.
+  Proof.
+    intros HI HO. unfold add_user, spec_add.
+    destruct (valid_name u) eqn:V; cbn [negb andb].
+    2:{ exists d, a, SErr. split; [reflexivity|]. split; [reflexivity|exact HI]. }
+    rewrite (exists_agree c d a u HI V).
+    destruct (alookup u a) as [cr|] eqn:A.
+    { exists d, a, SErr. split; [reflexivity|]. split; [|exact HI].
+      destruct (name_fits u && can_write kdf_fails c); reflexivity. }
+    destruct (name_fits u) eqn:F; cbn [andb].
+    2:{ exists d, a, SErr. split; [reflexivity|]. split; [reflexivity|exact HI]. }
+    destruct (can_write kdf_fails c) eqn:CW.
+    2:{ rewrite (write_hash_fail _ _ _ _ _ _ _ CW). exists d, a, SErr. split; [reflexivity|]. split; [reflexivity|exact HI]. }
+    unfold can_write in CW. destruct (cfg_hasher c (default c)) as [h|] eqn:Hh; [|discriminate CW].
+    apply negb_true_iff in CW.
+    pose proof HI as (Hwf & Hnd & _).
+    destruct (write_hash_succ c d u pw adm true orc h [] Hh CW (inv_tmp _ _ _ HI)
+                (valid_not_tmp u adm V)
+                (or_introl (conj eq_refl (conj (inv_absent c d a u adm HI V A) eq_refl))) Hnd)
+      as (dig & d' & K & W & Hnd' & HL).
+    rewrite W. eexists d', _, SOk. split; [reflexivity|]. split; [reflexivity|].
+    change (after_first_line []) with (@nil N) in HL.
+    eapply Inv_after_write; try eassumption.
+    apply inv_absent with (c := c) (a := a); assumption.
+  Qed.
+
+  (* ---- UpdateUser ---- *)
+  Lemma update_sim c d a u pw orc :
+    Inv c d a -> oracle_ok orc ->
+    exists d' a' sr,
+      update_user kdf c d u pw orc = (d', res_of_sres sr) /\
+      spec_step kdf_fails c a (SUpdate u pw (o_ts orc)) = (c, a', sr) /\
+      Inv c d' a'.
+  Proof.
+    intros HI HO. unfold update_user. cbn [spec_step].
+    destruct (valid_name u) eqn:V; cbn [negb andb].
+    2:{ exists d, a, SErr. split; [reflexivity|]. split; [reflexivity|exact HI]. }
+    rewrite (exists_agree c d a u HI V).
+    destruct (alookup u a) as [cr|] eqn:A.
+    2:{ exists d, a, SErr. split; [destruct (name_fits u); reflexivity|]. split; [|exact HI].
+        destruct (can_write kdf_fails c); reflexivity. }
+    pose proof HI as (Hwf & Hnd & Ha & Hd).
+    destruct (Ha _ _ A) as (_ & F & h0 & salt0 & dig0 & Hh0 & Hpid0 & Hts0 & K0 & Ws0 & Ns0 & L0 & Lo0).
+    destruct (kdf_out _ _ _ _ K0) as [Wd0 Nd0].
+    unfold read_file. rewrite L0. unfold is_supported.
+    rewrite (supp_written c h0 _ _ salt0 dig0 [] Hts0 Hpid0 Hh0 Ws0 Wd0 Ns0 Nd0).
+    destruct (can_write kdf_fails c) eqn:CW.
+    2:{ rewrite (write_hash_fail _ _ _ _ _ _ _ CW). exists d, a, SErr. split; [reflexivity|]. split; [reflexivity|exact HI]. }
+    unfold can_write in CW. destruct (cfg_hasher c (default c)) as [h|] eqn:Hh; [|discriminate CW].
+    apply negb_true_iff in CW.
+    destruct (write_hash_succ c d u pw (a_admin cr) false orc h _ Hh CW (inv_tmp _ _ _ HI)
+                (valid_not_tmp u (a_admin cr) V)
+                (or_intror (conj eq_refl L0)) Hnd)
+      as (dig & d' & K & W & Hnd' & HL).
+    rewrite W. eexists d', _, SOk. split; [reflexivity|]. split; [reflexivity|].
+    rewrite (afl_written _ _ _ _ _ _ Ws0 Wd0) in HL.
+    eapply Inv_after_write; try eassumption.
+  Qed.
+
+  (* ---- SetAdmin ---- *)
+  Lemma set_admin_sim c d a u adm :
+    Inv c d a ->
+    exists d' a' sr,
+      set_admin d u adm = (d', res_of_sres sr) /\
+      spec_step kdf_fails c a (SSetAdmin u adm) = (c, a', sr) /\
+      Inv c d' a'.
+  Proof.
+    intros HI. unfold set_admin. cbn [spec_step].
+    destruct (valid_name u) eqn:V; cbn [negb].
+    2:{ exists d, a, SErr. split; [reflexivity|]. split; [reflexivity|exact HI]. }
+    rewrite (exists_agree c d a u HI V).
+    destruct (alookup u a) as [cr|] eqn:A.
+    2:{ exists d, a, SErr. split; [destruct (name_fits u); reflexivity|]. split; [reflexivity|exact HI]. }
+    pose proof HI as (Hwf & Hnd & Ha & Hd).
+    destruct (Ha _ _ A) as (_ & F & h0 & salt0 & dig0 & Hh0 & Hpid0 & Hts0 & K0 & Ws0 & Ns0 & L0 & Lo0).
+    destruct (Bool.eqb (a_admin cr) adm) eqn:EB.
+    - apply eqb_prop in EB. subst adm.
+      eexists d, _, SOk. split; [reflexivity|]. split; [reflexivity|].
+      apply Inv_ext_a with (a := a); [|exact HI].
+      intros u'. destruct (beq_spec u u') as [<-|NU].
+      + rewrite alookup_aset_eq, A. destruct cr; reflexivity.
+      + apply alookup_aset_ne; exact NU.
+    - apply eqb_false_iff in EB.
+      assert (EA : adm = negb (a_admin cr)).
+      { destruct adm, (a_admin cr); try reflexivity; exfalso; apply EB; reflexivity. }
+      subst adm. clear EB.
+      rewrite L0, (fits_ext u _ F), Lo0.
+      eexists _, _, SOk. split; [reflexivity|]. split; [reflexivity|].
+      eapply (Inv_aset c d a _ u _ h0 salt0 dig0 (dlookup tmp_name d) HI);
+        cbn [a_pw a_admin a_ts a_pid]; try assumption.
+      + apply dnodup_dset, dnodup_dremove. exact Hnd.
+      + left; reflexivity.
+      + intros k. rewrite dlookup_dset, dlookup_dremove, negb_involutive.
+        destruct (beq k (u ++ ext_of (negb (a_admin cr)))); [reflexivity|].
+        destruct (beq k (u ++ ext_of (a_admin cr))); [reflexivity|].
+        destruct (beq_spec k tmp_name) as [->|_]; reflexivity.
+  Qed.
+
+  (* ---- Remove ---- *)
+  Lemma dlookup_unlink f d :
+    (dlookup f d = None \/ exists ct, dlookup f d = Some (File ct)) ->
+    forall k, dlookup k (unlink f d) = if beq k f then None else dlookup k d.
+  Proof.
+    intros H k. unfold unlink. destruct H as [E|(ct & E)]; rewrite E.
+    - destruct (beq_spec k f) as [->|_]; [exact E|reflexivity].
+    - apply dlookup_dremove.
+  Qed.
+
+  Lemma dnodup_unlink f d : dnodup d -> dnodup (unlink f d).
+  Proof.
+    intros H. unfold unlink. destruct (dlookup f d) as [[ct|[|x l]]|]; try exact H;
+      apply dnodup_dremove; exact H.
+  Qed.
+
+  Lemma user_file_shape c d a u b :
+    Inv c d a -> valid_name u = true ->
+    dlookup (u ++ ext_of b) d = None \/ exists ct, dlookup (u ++ ext_of b) d = Some (File ct).
+  Proof.
+    intros HI V. destruct (inv_user_file c d a u b HI V) as [E|(cr & ct & _ & _ & E)].
+    - left; exact E.
+    - right; exists ct; exact E.
+  Qed.
+
+  Lemma remove_sim c d a u : Inv c d a -> Inv c (remove_user d u) (aremove u a).
+  Proof.
+    intros HI. unfold remove_user. destruct (valid_name u) eqn:V; cbn [negb].
+    - pose proof HI as (Hwf & Hnd & _).
+      pose proof (dlookup_unlink (u ++ ext_admin) d (user_file_shape c d a u true HI V)) as Q1.
+      assert (S2 : dlookup (u ++ ext_user) (unlink (u ++ ext_admin) d) = None \/
+                   exists ct, dlookup (u ++ ext_user) (unlink (u ++ ext_admin) d) = Some (File ct)).
+      { rewrite Q1. destruct (beq_spec (u ++ ext_user) (u ++ ext_admin)) as [E|_].
+        - left; reflexivity.
+        - exact (user_file_shape c d a u false HI V). }
+      pose proof (dlookup_unlink (u ++ ext_user) _ S2) as Q2.
+      apply Inv_aremove with (d := d); [exact HI| |].
+      + apply dnodup_unlink, dnodup_unlink. exact Hnd.
+      + intros k. rewrite Q2, Q1.
+        destruct (beq k (u ++ ext_user)), (beq k (u ++ ext_admin)); reflexivity.
+    - apply Inv_ext_a with (a := a); [|exact HI].
+      intros u'. destruct (beq_spec u u') as [<-|NU].
+      + rewrite alookup_aremove_eq. symmetry. eapply inv_invalid_none; eassumption.
+      + apply alookup_aremove_ne; exact NU.
+  Qed.
+
+  (* ---- Init ---- *)
+  Lemma dir_empty_agree c d a :
+    Inv c d a -> dir_empty d = match a with [] => true | _ => false end.
+  Proof.
+    intros (Hwf & Hnd & Ha & Hd). destruct a as [|[u cr] ra].
+    - assert (T : forall k n, dlookup k d = Some n -> k = tmp_name /\ n = Dir []).
+      { intros k n L. destruct (Hd _ _ L) as [T|(u & cr & A & _)]; [exact T|discriminate A]. }
+      destruct d as [|[k n] r]; [reflexivity|].
+      destruct (T k n) as [-> ->].
+      { cbn [dlookup]. rewrite beq_refl. reflexivity. }
+      destruct r as [|[k2 n2] r2].
+      + cbn [dir_empty]. apply beq_refl.
+      + exfalso. cbn [dnodup] in Hnd. destruct Hnd as [N1 _].
+        cbn [dlookup] in N1.
+        destruct (beq_spec tmp_name k2) as [E|NE]; [discriminate N1|].
+        destruct (T k2 n2) as [E _]; [|congruence].
+        cbn [dlookup]. destruct (beq_spec k2 tmp_name) as [E|_]; [congruence|].
+        rewrite beq_refl. reflexivity.
+    - assert (A : alookup u ((u, cr) :: ra) = Some cr).
+      { cbn [alookup]. rewrite beq_refl. reflexivity. }
+      destruct (Ha _ _ A) as (_ & _ & h & salt & dig & _ & _ & _ & _ & _ & _ & L & _).
+      destruct d as [|[k n] [|p r]].
+      + discriminate L.
+      + destruct n as [ct|ch]; [reflexivity|].
+        cbn [dlookup] in L. destruct (beq (u ++ ext_of (a_admin cr)) k); discriminate L.
+      + destruct n; reflexivity.
+  Qed.
+
+  Lemma init_sim c d a u pw orc :
+    Inv c d a -> oracle_ok orc ->
+    exists d' a' sr,
+      init_store kdf c d u pw orc = (d', res_of_sres sr) /\
+      spec_step kdf_fails c a (SInit u pw (o_ts orc)) = (c, a', sr) /\
+      Inv c d' a'.
+  Proof.
+    intros HI HO. unfold init_store. cbn [spec_step].
+    rewrite (dir_empty_agree c d a HI). destruct a as [|p ra].
+    - destruct (add_sim c d [] u pw true orc HI HO) as (d' & a' & sr & E1 & E2 & I').
+      exists d', a', sr. rewrite E2. split; [exact E1|]. split; [reflexivity|exact I'].
+    - exists d, (p :: ra), SErr. split; [reflexivity|]. split; [reflexivity|exact HI].
+  Qed.
+
+  (* ---- one step ---- *)
+  Lemma step_sim c d a o orc :
+    Inv c d a -> oracle_ok orc ->
+    exists c' d' ob,
+      step kdf c d o orc = (c', d', ob) /\
+      match o with OpList | OpListFull | OpCheck => None | _ => Some ob end = spec_obs c a o orc /\
+      match sop_of o orc with
+      | Some so => exists a' r, spec_step kdf_fails c a so = (c', a', r) /\ Inv c' d' a'
+      | None => c' = c /\ d' = d
+      end.
+  Proof.
+    intros HI HO. destruct o as [u pw adm|u pw|u adm|u|u pw|u|u pw| | | |id].
+    - destruct (add_sim c d a u pw adm orc HI HO) as (d' & a' & sr & E1 & E2 & I').
+      exists c, d', (ORes (res_of_sres sr)). cbn [step spec_obs sop_of spec_step].
+      rewrite E1, E2. split; [reflexivity|]. split; [destruct sr; reflexivity|].
+      exists a', sr. split; [reflexivity|exact I'].
+    - destruct (update_sim c d a u pw orc HI HO) as (d' & a' & sr & E1 & E2 & I').
+      exists c, d', (ORes (res_of_sres sr)). cbn [step spec_obs sop_of].
+      rewrite E1, E2. split; [reflexivity|]. split; [destruct sr; reflexivity|].
+      exists a', sr. split; [reflexivity|exact I'].
+    - destruct (set_admin_sim c d a u adm HI) as (d' & a' & sr & E1 & E2 & I').
+      exists c, d', (ORes (res_of_sres sr)). cbn [step spec_obs sop_of].
+      rewrite E1, E2. split; [reflexivity|]. split; [destruct sr; reflexivity|].
+      exists a', sr. split; [reflexivity|exact I'].
+    - exists c, (remove_user d u), (ORes ROk). cbn [step spec_obs sop_of spec_step].
+      split; [reflexivity|]. split; [reflexivity|].
+      exists (aremove u a), SOk. split; [reflexivity|apply remove_sim; exact HI].
+    - destruct (init_sim c d a u pw orc HI HO) as (d' & a' & sr & E1 & E2 & I').
+      exists c, d', (ORes (res_of_sres sr)). cbn [step spec_obs sop_of].
+      rewrite E1, E2. split; [reflexivity|]. split; [destruct sr; reflexivity|].
+      exists a', sr. split; [reflexivity|exact I'].
+    - exists c, d, (OExists (if valid_name u then user_exists d u else ExErr)).
+      cbn [step spec_obs sop_of]. split; [reflexivity|]. split; [|split; reflexivity].
+      unfold exists_of_spec, spec_exists. destruct (valid_name u) eqn:V; cbn [negb]; [|reflexivity].
+      rewrite (exists_agree c d a u HI V). destruct (alookup u a); reflexivity.
+    - exists c, d, (authenticate kdf c d u pw).
+      cbn [step spec_obs sop_of]. split; [reflexivity|]. split; [|split; reflexivity].
+      rewrite (auth_agree c d a u pw HI). reflexivity.
+    - eexists c, d, _. cbn [step spec_obs sop_of]. split; [reflexivity|].
+      split; [reflexivity|split; reflexivity].
+    - eexists c, d, _. cbn [step spec_obs sop_of]. split; [reflexivity|].
+      split; [reflexivity|split; reflexivity].
+    - eexists c, d, _. cbn [step spec_obs sop_of]. split; [reflexivity|].
+      split; [reflexivity|split; reflexivity].
+    - eexists _, d, (ORes ROk). cbn [step spec_obs sop_of spec_step]. split; [reflexivity|].
+      split; [reflexivity|].
+      exists a, SOk. split; [reflexivity|apply Inv_set_default; exact HI].
+  Qed.
+
+  (* ---- histories ---- *)
+  Lemma trace_sim hs : forall c d a,
+    Inv c d a -> Forall oracle_ok (map snd hs) -> trace c d hs = strace c a hs.
+  Proof.
+    induction hs as [|[o orc] r IH]; intros c d a HI HF; [reflexivity|].
+    cbn [map snd] in HF. inversion HF as [|x l HO HF' Eq]; subst x l.
+    destruct (step_sim c d a o orc HI HO) as (c' & d' & ob & E & O & S).
+    cbn [trace strace]. cbv zeta. rewrite E, <- O.
+    destruct (sop_of o orc) as [so|].
+    - destruct S as (a' & r0 & E2 & I'). rewrite E2. f_equal. apply IH; assumption.
+    - destruct S as [-> ->]. f_equal. apply IH; assumption.
+  Qed.
+
+  Lemma run_sim hs : forall c d a,
+    Inv c d a -> Forall oracle_ok (map snd hs) ->
+    exists c' d' a', run c d hs = (c', d') /\ srun c a hs = (c', a') /\ Inv c' d' a'.
+  Proof.
+    induction hs as [|[o orc] r IH]; intros c d a HI HF.
+    - exists c, d, a. split; [reflexivity|]. split; [reflexivity|exact HI].
+    - cbn [map snd] in HF. inversion HF as [|x l HO HF' Eq]; subst x l.
+      destruct (step_sim c d a o orc HI HO) as (c' & d' & ob & E & O & S).
+      cbn [run srun]. rewrite E.
+      destruct (sop_of o orc) as [so|].
+      + destruct S as (a' & r0 & E2 & I'). rewrite E2. apply IH; assumption.
+      + destruct S as [-> ->]. apply IH; assumption.
+  Qed.
+
   (* ---- C01, main statement: for every history from an empty store, every
      visible result equals the one the abstract password map prescribes ---- *)
   Theorem store_refines_spec (hs : hist) (c : config) :
     cfg_wf c -> Forall oracle_ok (map snd hs) ->
     trace c [] hs = strace c [] hs.
-  Admitted.
+  Proof.
+    intros Hwf HF. apply trace_sim; [apply Inv_empty; exact Hwf|exact HF].
+  Qed.
 
   (* after any history the verdict on ANY (user, password) is the specified one *)
   Theorem auth_after_history (hs : hist) (c : config) (u p : bytes) :
@@ -118,7 +976,14 @@ Section Refinement.
     authenticate kdf c1 d1 u p = obs_of_sauth (spec_auth sha256 kdf_fails c1 a u p) /\
     (valid_name u = true -> user_exists d1 u =
        match spec_exists a u with Some adm => ExYes adm | None => if name_fits u then ExNo else ExErr end).
-  Admitted.
+  Proof.
+    intros Hwf HF.
+    destruct (run_sim hs c [] [] (Inv_empty c Hwf) HF) as (c' & d' & a' & R & S & HI).
+    rewrite R, S. split; [reflexivity|]. split.
+    - apply auth_agree; exact HI.
+    - intros V. rewrite (exists_agree c' d' a' u HI V). unfold spec_exists.
+      destruct (alookup u a'); reflexivity.
+  Qed.
 
   (* list agrees with the map: exactly the users whose parameter set is still
      configured, with their admin flag and last-change time *)
@@ -129,7 +994,11 @@ Section Refinement.
     exists l, list_users c1 d1 [] = Some l /\
       forall u ui, alookup u l = Some ui <->
         exists cr, alookup u a = Some cr /\ ui = {| ui_admin := a_admin cr; ui_ts := a_ts cr |}.
-  Admitted.
+  Proof.
+    intros Hwf HF.
+    destruct (run_sim hs c [] [] (Inv_empty c Hwf) HF) as (c' & d' & a' & R & S & HI).
+    rewrite R, S. apply list_agree with (c := c') (d := d'); exact HI.
+  Qed.
 
   (* near-miss corollaries (argon2id: exact bytes) *)
   Theorem near_miss_argon (hs : hist) (c : config) (u p : bytes) cr t m th l :
@@ -139,33 +1008,99 @@ Section Refinement.
     alookup u a = Some cr -> cfg_hasher c1 (a_pid cr) = Some (HArgon t m th l) ->
     p <> a_pw cr ->
     authenticate kdf c1 d1 u p = OAuth false false false 0%Z.
-  Admitted.
+  Proof.
+    intros Hwf HF.
+    destruct (run_sim hs c [] [] (Inv_empty c Hwf) HF) as (c' & d' & a' & R & S & HI).
+    rewrite R, S. intros A Hh NE.
+    rewrite (auth_agree c' d' a' u p HI). unfold spec_auth. rewrite A, Hh.
+    cbn [keyeq].
+    destruct (beq_spec (a_pw cr) p) as [E|_]; [exfalso; apply NE; symmetry; exact E|].
+    rewrite andb_false_r. reflexivity.
+  Qed.
 End Refinement.
 
 (* characterisation of the scrypt key equivalence (PBKDF2-HMAC keys) *)
+Lemma rev_repeat_byte b n : rev (repeat_byte b n) = repeat_byte b n.
+Proof.
+  assert (S : forall k, repeat_byte b k ++ [b] = b :: repeat_byte b k).
+  { induction k as [|k IH]; cbn [repeat_byte app]; [reflexivity|]. rewrite IH. reflexivity. }
+  induction n as [|n IH]; cbn [repeat_byte rev]; [reflexivity|].
+  rewrite IH. apply S.
+Qed.
+
+Lemma repeat_byte_app b n m : repeat_byte b n ++ repeat_byte b m = repeat_byte b (n + m).
+Proof.
+  induction n as [|n IH]; cbn [repeat_byte app Nat.add]; [reflexivity|].
+  rewrite IH. reflexivity.
+Qed.
+
+Lemma strip0_rev_zeros n r : strip0_rev (repeat_byte 0 n ++ r) = strip0_rev r.
+Proof.
+  induction n as [|n IH]; cbn [repeat_byte app strip0_rev]; [reflexivity|exact IH].
+Qed.
+
+Lemma strip0_rev_idem r : strip0_rev (strip0_rev r) = strip0_rev r.
+Proof.
+  induction r as [|x r IH]; [reflexivity|].
+  destruct x as [|q]; cbn [strip0_rev]; [exact IH|reflexivity].
+Qed.
+
+Lemma strip0_rev_decomp r : exists k, r = repeat_byte 0 k ++ strip0_rev r.
+Proof.
+  induction r as [|x r IH].
+  - exists O. reflexivity.
+  - destruct x as [|q]; cbn [strip0_rev].
+    + destruct IH as [k IH]. exists (S k). cbn [repeat_byte app]. rewrite <- IH. reflexivity.
+    + exists O. reflexivity.
+Qed.
+
+Lemma strip0_decomp p : exists k, p = strip0 p ++ repeat_byte 0 k.
+Proof.
+  destruct (strip0_rev_decomp (rev p)) as [k E]. exists k.
+  unfold strip0. rewrite <- (rev_involutive p) at 1. rewrite E at 1.
+  rewrite rev_app_distr, rev_repeat_byte. reflexivity.
+Qed.
+
 Lemma strip0_app_zeros p n : strip0 (p ++ repeat_byte 0 n) = strip0 p.
-Admitted.
+Proof.
+  unfold strip0. rewrite rev_app_distr, rev_repeat_byte, strip0_rev_zeros. reflexivity.
+Qed.
 
 Lemma strip0_idem p : strip0 (strip0 p) = strip0 p.
-Admitted.
+Proof.
+  unfold strip0. rewrite rev_involutive, strip0_rev_idem. reflexivity.
+Qed.
 
 Lemma strip0_no_trailing_zero p q :
   strip0 p = strip0 q <-> exists n m, p ++ repeat_byte 0 n = q ++ repeat_byte 0 m.
-Admitted.
+Proof.
+  split.
+  - intros E. destruct (strip0_decomp p) as [kp Hp]. destruct (strip0_decomp q) as [kq Hq].
+    exists kq, kp. rewrite Hp at 1. rewrite Hq at 1. rewrite E.
+    rewrite <- !app_assoc, !repeat_byte_app. f_equal. f_equal. apply Nat.add_comm.
+  - intros (n & m & E). rewrite <- (strip0_app_zeros p n), <- (strip0_app_zeros q m), E.
+    reflexivity.
+Qed.
 
 Section KeyEq.
   Variable sha256 : bytes -> bytes.
   Lemma keyeq_scrypt_short k cst r pp p q :
     len p <= 64 -> len q <= 64 ->
     keyeq sha256 (HScrypt k cst r pp) p q = true <-> strip0 p = strip0 q.
-  Admitted.
+  Proof.
+    intros Hp Hq. cbn [keyeq]. unfold hmac_norm.
+    apply N.ltb_ge in Hp. apply N.ltb_ge in Hq. rewrite Hp, Hq. apply beq_eq.
+  Qed.
 
   Lemma keyeq_scrypt_long k cst r pp p :
     64 < len p -> len (sha256 p) <= 64 ->
     keyeq sha256 (HScrypt k cst r pp) p (sha256 p) = true.
-  Admitted.
+  Proof.
+    intros Hp Hs. cbn [keyeq]. unfold hmac_norm.
+    apply N.ltb_lt in Hp. apply N.ltb_ge in Hs. rewrite Hp, Hs. apply beq_refl.
+  Qed.
 
   Lemma keyeq_argon t m th l p q :
     keyeq sha256 (HArgon t m th l) p q = true <-> p = q.
-  Admitted.
+  Proof. cbn [keyeq]. apply beq_eq. Qed.
 End KeyEq.
